@@ -172,6 +172,7 @@ func runCheck(id, tier, repo, verif string, seed int, writeEv bool) int {
 	covers, coversOK := 0, 0
 	ignored := 0
 	var deadReturns []string
+	var vacuous []*ObResult
 	deadByFunc, retsByFunc := map[string]int{}, map[string]int{}
 	carrying := 0
 	samples := []any{}
@@ -192,8 +193,7 @@ func runCheck(id, tier, repo, verif string, seed int, writeEv bool) int {
 				deadReturns = append(deadReturns, r.Name)
 				deadByFunc[r.Func]++
 			} else {
-				fmt.Printf("MACHINERY-ERROR: vacuous cover %s (contradictory requires/invariant?)\n", r.Name)
-				violations = -1000
+				vacuous = append(vacuous, r)
 			}
 			if strings.Contains(r.Name, "/cover:ret#") {
 				retsByFunc[r.Func]++
@@ -237,13 +237,33 @@ func runCheck(id, tier, repo, verif string, seed int, writeEv bool) int {
 		}
 		failed = append(failed, r)
 	}
-	for f, n := range deadByFunc {
-		if n == retsByFunc[f] {
-			fmt.Printf("MACHINERY-ERROR: no return of %s is reachable under its contract (vacuous)\n", f)
-			violations = -1000
+	// a failed obligation is assumed after it is reported, so later covers of the same
+	// function may be vacuous as a consequence: that is not a machinery error
+	failedFuncs := map[string]bool{}
+	for _, r := range failed {
+		failedFuncs[r.Func] = true
+	}
+	for _, e := range res.Errors {
+		for f := range retsByFunc {
+			if strings.Contains(e, f) {
+				failedFuncs[f] = true
+			}
 		}
 	}
-	if violations < 0 {
+	machinery := false
+	for _, v := range vacuous {
+		if !failedFuncs[v.Func] {
+			fmt.Printf("MACHINERY-ERROR: vacuous cover %s (contradictory requires/invariant?)\n", v.Name)
+			machinery = true
+		}
+	}
+	for f, n := range deadByFunc {
+		if n == retsByFunc[f] && !failedFuncs[f] {
+			fmt.Printf("MACHINERY-ERROR: no return of %s is reachable under its contract (vacuous)\n", f)
+			machinery = true
+		}
+	}
+	if machinery {
 		return 3
 	}
 	// engine errors on functions of this property: the contracts no longer apply
